@@ -160,9 +160,9 @@ type Query struct {
 	// Invoke optionally resolves interface invokes to repo functions.
 	Invoke func(ssa.Instruction) []*ssa.Function
 	// SkipCall: do not look into these calls (e.g. go statements).
-	SkipGo   bool
+	SkipGo bool
 	// Skip: callees not to look into (e.g. recursion back into the function under analysis).
-	Skip func(*ssa.Function) bool
+	Skip     func(*ssa.Function) bool
 	MaxDepth int
 	may      map[string]int
 	must     map[string]int
